@@ -9,6 +9,16 @@ Ltac a_facts Hi a :=
 
 Ltac ut := upd_tac; simp.
 Ltac fin := try congruence; try lia; auto.
+Ltac updr_all :=
+  unfold updr in *;
+  repeat match goal with
+  | |- context [if inr ?lo ?hi ?j then _ else _] => let E := fresh "Er" in destruct (inr lo hi j) eqn:E
+  | H : context [if inr ?lo ?hi ?j then _ else _] |- _ => let E := fresh "Er" in destruct (inr lo hi j) eqn:E
+  end;
+  repeat match goal with
+  | H : inr _ _ _ = true |- _ => apply inr_iff in H
+  | H : inr _ _ _ = false |- _ => apply inr_false in H
+  end.
 Ltac owner_only Ha Hne :=
   exfalso; apply Hne; destruct Ha as (_ & Ha1 & Ha2 & _); apply Ha1; right; apply Ha2; reflexivity.
 Section S.
@@ -116,4 +126,15 @@ Proof.
     apply (ILv _ _ Hi) with (i := tix s); [lia | lia | apply unrel_tix; auto].
   - (* OC *) rewrite T2. apply (ILv _ _ Hi) with (i := S (tix s)); [lia | lia | apply unrel_tix; auto].
 Qed.
+Lemma lb_alive s a : Inv s -> holds B (A s a) = true \/ lockpc B (A s a) = true -> alive (heap s (lb (A s a))) = true.
+Proof.
+  intros Hi H. pose proof (IAc _ _ Hi a) as Ha. unfold ainv in Ha. destruct (IHd _ _ Hi) as [_ HA].
+  unfold holds, lockpc in H. destruct (pc (A s a)) eqn:E; try (destruct H; discriminate).
+  all: destruct Ha as (_ & _ & _ & Ha).
+  all: try (destruct (lockedB B (A s a)) eqn:EL; [ destruct Ha as (_ & _ & (L1 & L2 & L3) & _); congruence | destruct Ha as (_ & _ & (_ & C & _) & _); exact C ]).
+  all: try (destruct Ha as ((_ & C & _) & _); exact C).
+  all: try (destruct Ha as ((L1 & L2 & L3) & _); congruence).
+  all: try contradiction.
+Qed.
+
 End S.
